@@ -327,7 +327,7 @@ fn encode_case(h: &Header, events: &[Vec<u64>]) -> Vec<u64> {
     push_list(&mut c, &h.known);
     c.push(h.cap);
     c.push(h.mode);
-    if h.mode == 1 {
+    if h.mode & 1 == 1 {
         let labels: Vec<u64> = (0..h.pool).chain([LOCAL]).collect();
         c.push(labels.len() as u64);
         for l in labels {
@@ -365,7 +365,7 @@ fn decode_case(c: &[u64]) -> Option<(Header, Vec<Ev>)> {
     let cap = r.n()?;
     let mode = r.n()?;
     let mut pool = MAX_POOL;
-    if mode == 1 {
+    if mode & 1 == 1 {
         let nk = r.n()? as usize;
         if nk == 0 || nk > 201 {
             return None;
@@ -401,7 +401,7 @@ fn decode_case(c: &[u64]) -> Option<(Header, Vec<Ev>)> {
             15 => Ev::UPutToPeers { q: r.n()?, qtag: r.n()?, qn: r.n()?, rk: r.n()?, given: r.list()? },
             16 => Ev::UStore(r.n()?),
             17 => Ev::UAddKnown(r.n()?, r.n()? != 0),
-            3 => {
+            3 | 18 => {
                 r.n()?;
                 continue;
             }
@@ -544,7 +544,10 @@ impl Sys {
             .with_provider_refresh_interval(Duration::from_secs(REFRESH_SECS));
         let (config, handle) = if h.cap == 0 { builder.build() } else { builder.verif_build_bounded(h.cap as usize) };
         let probe = VerifProbe::default();
-        let kad = VerifKademlia::new(service, config, probe.clone());
+        let mut kad = VerifKademlia::new(service, config, probe.clone());
+        if h.mode & 2 != 0 {
+            kad.verif_zero_peer_timeout();
+        }
         let fut: Pin<Box<dyn Future<Output = ()>>> = Box::pin(async move {
             let _ = kad.run().await;
         });
@@ -1132,7 +1135,12 @@ impl Sys {
         let mut outs: Vec<Vec<u64>> = events[..split].iter().map(|ev| self.enc_event(ev)).collect();
         let mut rest = events[split..].iter();
         let mut serves = Vec::new();
+        // zero peer timeout: time passes before every next_action call
+        let stale = self.mode & 2 != 0;
         for (kind, query, peers) in &actions {
+            if stale {
+                serves.push(vec![18, 1]);
+            }
             serves.push(vec![3, self.qlabel(*query)]);
             if *kind == 2 || *kind == 4 {
                 let mut o = vec![10, self.qlabel(*query)];
@@ -1151,7 +1159,7 @@ impl Sys {
                 trace.extend(o);
             }
             self.enc_dump(trace);
-            if self.mode == 1 {
+            if self.mode & 1 == 1 {
                 self.enc_rt_store(trace);
             }
         } else {
@@ -1165,6 +1173,9 @@ impl Sys {
             if !self.parked {
                 self.enc_dump(trace);
             }
+        }
+        if stale {
+            serves.push(vec![18, 1]);
         }
         let mut out = vec![e.encode()];
         out.extend(serves);
@@ -1364,7 +1375,7 @@ fn run_stored(c: &[u64]) -> Option<(Vec<u64>, Vec<u64>)> {
     // in a task that never yields, i.e. delay events of long histories
     rt.block_on(tokio::task::unconstrained(async {
         let mut s = Sys::new(&h)?;
-        let mut trace = vec![if h.mode == 1 { 3u64 } else if h.cap == 0 { 1u64 } else { 2u64 }];
+        let mut trace = vec![if h.mode & 1 == 1 { 3u64 } else if h.cap == 0 { 1u64 } else { 2u64 }];
         let mut events = Vec::new();
         for e in &evs {
             events.extend(s.apply(e, &mut trace).await);
@@ -1514,9 +1525,9 @@ impl Gen {
 
 /// One adaptive run: a small network with faults, a few user operations, then (usually) the
 /// environment discharges everything it still owes.
-fn generate(seed: u64, tier_long: bool, cap: u64, compose: bool) -> Option<(Vec<u64>, Vec<u64>)> {
+fn generate(seed: u64, tier_long: bool, cap: u64, compose: bool, stale: bool) -> Option<(Vec<u64>, Vec<u64>)> {
     let mut rng = Rng::new(seed);
-    let n = rng.range(2, 7);
+    let n = if stale { rng.range(4, 7) } else { rng.range(2, 7) };
     let k = rng.pick(&[1u64, 2, 3, 20, 20, 20]);
     let mut mgr = Vec::new();
     let mut known = Vec::new();
@@ -1526,14 +1537,14 @@ fn generate(seed: u64, tier_long: bool, cap: u64, compose: bool) -> Option<(Vec<
             known.push(p);
         }
     }
-    let h = Header { k, mgr, known, cap, mode: compose as u64, pool: MAX_POOL };
+    let h = Header { k, mgr, known, cap, mode: compose as u64 | (stale as u64) << 1, pool: MAX_POOL };
     let mut g = Gen { rng, n, k, next_q: 0, next_inbound: INBOUND_BASE, answered: Vec::new(), dial_answered: Vec::new() };
     let rt = runtime();
     // unconstrained: tokio's cooperative budget would make channel polls return Pending spuriously
     // in a task that never yields, i.e. delay events of long histories
     rt.block_on(tokio::task::unconstrained(async {
         let mut s = Sys::new(&h)?;
-        let mut trace = vec![if h.mode == 1 { 3u64 } else if h.cap == 0 { 1u64 } else { 2u64 }];
+        let mut trace = vec![if h.mode & 1 == 1 { 3u64 } else if h.cap == 0 { 1u64 } else { 2u64 }];
         let mut events: Vec<Vec<u64>> = Vec::new();
         let happy = g.rng.pick(&[30u64, 60, 60, 85, 100]);
         let max_cmds = g.rng.range(1, if tier_long { 5 } else { 3 });
@@ -1880,6 +1891,25 @@ fn witnesses() -> Vec<(&'static str, Header, Vec<Ev>)> {
             ],
         ),
         full_bucket_witness(),
+        (
+            // peer timeout staleness: with a zero peer timeout a pending peer stops counting towards
+            // the parallelism factor at once, so one drain sends FIND_NODE to all five seeds (alpha = 3);
+            // every one of them stays owed until it answers
+            "stale_pending_peers_free_slots",
+            Header { k: 20, mgr: (0..5).map(|p| (p, 2)).collect(), known: (0..5).collect(), cap: 0, mode: 2, pool: MAX_POOL },
+            vec![
+                Ev::Established(0, true),
+                Ev::Established(1, true),
+                Ev::Established(2, true),
+                Ev::Established(3, true),
+                Ev::Established(4, true),
+                cmd(0, 0, 1),
+                Ev::Opened(0, 0),
+                Ev::Opened(4, 4),
+                Ev::Fut { id: 0, res: Res::Read(Msg::FindNode(vec![])), how: 0 },
+                Ev::Fut { id: 4, res: Res::ReadFail, how: 0 },
+            ],
+        ),
     ]
 }
 
@@ -2025,6 +2055,8 @@ pub fn main(args: &Args) {
         let cap = if i % 5 == 4 { 1 + (i / 5) % 3 } else { 0 };
         // two of five run against the composed model (routing table and store computed)
         let compose = i % 5 == 1 || i % 5 == 3;
-        run_one(|| generate(seed.wrapping_mul(1_000_003).wrapping_add(i), long, cap, compose), &[0], &mut out);
+        // one of five with a zero peer timeout: every pending peer of a FIND_NODE-type lookup is stale
+        let stale = i % 10 == 0 || i % 10 == 3;
+        run_one(|| generate(seed.wrapping_mul(1_000_003).wrapping_add(i), long, cap, compose, stale), &[0], &mut out);
     }
 }
